@@ -213,6 +213,10 @@ func main() {
 			"the RESULT W of [] + V, V + [], (S or []) + V with S = [] / None, V | {}, {} | V; (config) to a list / dict / nested-list / dict-member entry of CONFIG that a subincluded " +
 			"file set (setdefault, assignment, assignment then setdefault, override of a base key, next to a plain global) and the package reads back (CONFIG.K, CONFIG[K], CONFIG.get(K)), " +
 			"compared with the entry set by the package itself and with the literal. distinct = distinct (value, program) pairs; all are non-trivial (the imported run crosses a Freeze). " +
+			"Follow-up 2 streams: (attr) a dict with a KEY named like a dict method (keys values items get copy) or an ordinary key, read with the attribute syntax D.key " +
+			"(also one level down: D.tools.key, D[\"tools\"].key), the member (list / dict / scalar) handed to every consumer; D defined in the BUILD file, imported through subinclude, and imported " +
+			"but read by D[\"key\"]; (plugin) a plugin definition with [PluginConfig] fields (repeatable, plain, optional; defaults, host overrides) loaded into the package's CONFIG by the real " +
+			"loadPluginConfig as subinclude() of a plugin target does, CONFIG.<PLUGIN>.<FIELD> / CONFIG.<PLUGIN> handed to every consumer, compared with the literal. " +
 			"Packages are interpreted forty to an interpreter, each with a scope, CONFIG copy and defs label of its own")
 		reps := c.Scale(6, 120)
 		for _, a := range apps() {
@@ -276,6 +280,9 @@ func main() {
 		}
 		sumStream(c)
 		configStream(c)
+		attrStream(c)
+		pluginStream(c)
+		flushPlugins()
 		flush()
 	})
 }
